@@ -2,7 +2,8 @@
    nunavut/support/serialization.h, both renderings `target_endianness = little` and any/big), using the C14 theorems
    (Prims/CPrimsThm.v: set_uxx_exact_b, get_uxx_spec_b).
 
-     c_prims little : prims         set_bits = nunavutSetUxx(buffer, size_bytes, off, value, len)   (value = the bits as a uint64_t)
+     c_prims little : prims         set_bits = nunavutSetUxx(buffer, size_bytes, off, value, len)   (value = the bits as a uint64_t;
+                                    CURRENT text with the saturating capacity check: PrimsCur.set_uxx_cur)
                                     get_bits = nunavutGetU<std_width w>(buffer, capacity/8, off, w)
    on the byte view of the walker's bit list (InstancesBase.v).  Side conditions of the C contracts and how they are met:
      - buffer of whole bytes, 8 * size < 2^64                   explicit hypotheses on the buffer (`c_dom`);
@@ -11,13 +12,13 @@
                                                                  |buffer| + tsz t (Codec/WalkerBound.v), assumed < 2^64.
    Results: `c_walk_des_refines`, `c_walk_ser_refines`, `c_ws_body_effect` - the C01/C02 walker theorems with the abstract
    `prims_ok` record replaced by the C functions. *)
-From Verif Require Import Bits CPrims CPrimsThm.
+From Verif Require Import Bits CPrims CPrimsThm PrimsCur.
 From Verif Require Import Wire WireThm WireThmRt WireThmExt Walker PrimsOn InstancesBase WalkerBound RefineDes RefineSerBits RefineSerBase RefineSer.
 Local Open Scope nat_scope.
 
 Definition c_set_bits (little : bool) (buf : list bool) (off : nat) (v : list bool) : option (list bool) :=
   let b := bytes_of_bits buf in
-  match set_uxx little b (blen b) (N.of_nat off) (N_of_bits v) (N.of_nat (length v)) with
+  match set_uxx_cur little b (blen b) (N.of_nat off) (N_of_bits v) (N.of_nat (length v)) with
   | Some (inl r) => Some (bits_of_bytes r)
   | _ => None
   end.
@@ -90,6 +91,7 @@ Proof.
   { rewrite (blen_bytes_of_bits buf Hm). apply c_buf_pre; [exact Hd | lia | lia]. }
   assert (Hsum : (N.of_nat off + N.of_nat (length v) <? two64)%N = true) by (apply N.ltb_lt; lia).
   pose proof (set_uxx_exact_b little _ _ _ (N_of_bits v) _ Hpre Hsum) as H.
+  rewrite set_uxx_cur_is_old by (rewrite ?(blen_bytes_of_bits buf Hm); lia).
   rewrite (blen_bytes_of_bits buf Hm) in *.
   destruct (N.ltb_spec (N.of_nat (length buf / 8) * 8) (N.of_nat off + N.of_nat (length v))) as [Hbad|_]; [lia|].
   destruct H as (r & -> & Hlen & Hbit). f_equal.
